@@ -106,11 +106,15 @@ impl WhereClauseBuilder {
         }
     }
 
-    /// Replaces `Self` in the collected bounds, for code placed outside of an impl.
-    pub fn expand_self(&mut self, to: &Type) {
+    /// Replaces `Self` in the types that get the default bound, for impls whose `Self` is `&T`.
+    pub fn expand_self_in_types(&mut self, to: &Type) {
         for ty in &mut self.types {
             *ty = expand_self(ty, to);
         }
+    }
+    /// Replaces `Self` in the collected bounds, for code placed outside of an impl.
+    pub fn expand_self(&mut self, to: &Type) {
+        self.expand_self_in_types(to);
         for pred in &mut self.preds {
             *pred = expand_self(pred, to);
         }
